@@ -1175,6 +1175,7 @@ def hist_spec(ctx, spec):
     classes = spec['classes']
     ctx.histogram('classes_per_hierarchy', len(classes))
     ctx.histogram('modules_layout', '+'.join(spec['modules']))
+    ctx.histogram('descriptor_chain_layout', spec.get('desc_layout', 'local'))
     for c in classes:
         ctx.histogram('bases_per_class', len(c['bases']))
         ctx.histogram('depth', depth_of(classes, c['id']))
@@ -1182,6 +1183,11 @@ def hist_spec(ctx, spec):
             ctx.histogram('base_kind', BUILTIN_ROWS[b] if b < NBUILTIN else 'source')
         for m in c['members']:
             ctx.histogram('member_kind', m['kind'])
+            if m['kind'] == 'desc':
+                ctx.histogram('descriptor_decorator', '%s (__get__ %s)' % (m.get('deco', 'Desc'),
+                              ['own body', 'inherited 1 level up', 'inherited 2 levels up'][DECO_LEVEL[m.get('deco', 'Desc')]]))
+            if m['kind'] in ('property', 'desc'):
+                ctx.histogram('getter_returns', m.get('ret', 'lit'))
             for a in m['assigns']:
                 ctx.histogram('self_assign_in', ('__init__' if m['name'] == '__init__' else m['kind']) +
                               ('/' + a['wrap'] if a['wrap'] else ''))
